@@ -155,6 +155,15 @@ struct fwd_twice {
         auto& slot = src.at(i);     // storage that belongs to the caller
         return std::string(std::move(slot));
     }
+    // front() on a possibly empty container / guarded by an emptiness test
+    std::string first_unchecked() const { return a.front(); }
+    std::string first_checked() const
+    {
+        if (a.empty()) {
+            return std::string();
+        }
+        return a.front();
+    }
     std::string copy_then_move(std::size_t i)
     {
         auto slot = a.at(i);
